@@ -21,6 +21,8 @@ List-level vocabulary used in the statements (definitions in Proofs/WM.lean, all
 -/
 import Sds.Proofs.Glue2
 import Sds.Proofs.GenEqIdx
+import Sds.Proofs.GenEqLoop4
+import Sds.Proofs.GenEqWM
 
 namespace Sds.C04
 open Sds Outcome
@@ -293,5 +295,49 @@ theorem wm_level_steps_as_translated_from_source (m : Mode) (c : WMCore) (i l : 
 
 /-- the translated `map_up_one` below the zero count answers `None` (finding F4) instead of wrapping around -/
 example : Generated.gen_WMCore_map_up_one .checked (WMCore.ofValues [0, 1]) 0 0 = ok none := by decide +kernel
+
+/-! **The level loops of `wm_core.rs` as translated from the source on this run** (`Generated/FnsLoop.lean`): `map_down`,
+`map_down_with`, `map_down_with_two_positions` (`for level in 0..width`) and `map_up_with` (`for level in
+(0..width).rev()` with `?` inside).  Each `for` becomes `loopM` over a counter and the variables the body assigns; a `?` in
+a branch makes the branch yield an `Option` that is matched after it.  On every core that encodes a vector (`Encodes`, the
+predicate the construction provably establishes), for every index and value and both build modes, the code as it is NOW
+is the model fold the theorems above are about — the bit test `value & bit_value(level) != 0` being the model's
+`(value / 2^(width-1-level)) % 2 = 1` for every natural `value`, and the `u64` accumulation in `map_down` never
+overflowing.  The two-position variant equals running `map_down_with` twice. -/
+theorem wm_level_loops_as_translated_from_source {c : WMCore} {V : List Nat} {width : Nat} (hc : c.Encodes V width)
+    (m : Mode) (index second value : Nat) :
+    Generated.gen_WMCore_map_down_with m c index (BitVec.ofNat 64 value) = c.mapDownWith m index value ∧
+    Generated.gen_WMCore_map_up_with m c index (BitVec.ofNat 64 value) = c.mapUpWith m index value ∧
+    Generated.gen_WMCore_map_down m c index =
+      (c.mapDown m index).bind (fun r => ok (r.map (fun p => (p.1, BitVec.ofNat 64 p.2)))) ∧
+    Generated.gen_WMCore_map_down_with_two_positions m c index second (BitVec.ofNat 64 value) =
+      (do let a ← c.mapDownWith m index value; let b ← c.mapDownWith m second value; pure (a, b)) :=
+  ⟨GenEq.wm_map_down_with_eq_of_encodes hc m index value, GenEq.wm_map_up_with_eq_of_encodes hc m index value,
+   GenEq.wm_map_down_eq_of_encodes hc m index, GenEq.wm_map_down_two_eq_of_encodes hc m index second value⟩
+
+/-! **The queries of `WaveletMatrix` as translated from the source on this run** (`Generated/FnsWM.lean`): `start`,
+`contains` (with its short-circuit `&&`), `rank`, `inverse_select` (the closure of `Option::map` included), `select` (the
+`checked_add` of the repair of F4), `get`, `ValueIter::next`, and the default `predecessor` / `successor` of
+`ops::VectorIndex` (the `saturating_add` of the repair of F3).  On every matrix whose core encodes a vector, for every
+index, rank and 64-bit value and both build modes, the code as it is NOW is the model function the theorems above are
+about (items are `u64` words in the code and naturals in the model). -/
+theorem wavelet_matrix_queries_as_translated_from_source {w : WM} {V : List Nat} {width : Nat} (hc : w.data.Encodes V width)
+    (m : Mode) (index rank value : Nat) (hv : value < U64) (hlen : w.len < U64) :
+    Generated.gen_WaveletMatrix_start m w (BitVec.ofNat 64 value) = w.start value ∧
+    Generated.gen_WaveletMatrix_contains m w (BitVec.ofNat 64 value) = w.contains value ∧
+    Generated.gen_WaveletMatrix_rank m w index (BitVec.ofNat 64 value) = w.rank m index value ∧
+    Generated.gen_WaveletMatrix_select m w rank (BitVec.ofNat 64 value) = w.select m rank value ∧
+    Generated.gen_WaveletMatrix_inverse_select m w index =
+      (w.inverseSelect m index).bind (fun r => ok (r.map (fun p => (p.1, BitVec.ofNat 64 p.2)))) ∧
+    Generated.gen_WaveletMatrix_get m w index = (w.get m index).bind (fun v => ok (BitVec.ofNat 64 v)) ∧
+    Generated.gen_ValueIter_next m w (BitVec.ofNat 64 value, rank) =
+      (w.valueIterNext m value rank).bind (fun r => ok (r.1, (BitVec.ofNat 64 value, r.2))) ∧
+    Generated.gen_VectorIndex_predecessor m w index (BitVec.ofNat 64 value) = w.predecessor m index value ∧
+    Generated.gen_VectorIndex_successor m w index (BitVec.ofNat 64 value) = w.successor m index value :=
+  ⟨GenEq.wmx_start_eq m w value hv, GenEq.wmx_contains_eq m w value hv, GenEq.wmx_rank_eq_of_encodes hc m index value hv,
+   GenEq.wmx_select_eq_of_encodes hc m rank value hv, GenEq.wmx_inverse_select_eq_of_encodes hc m index,
+   GenEq.wmx_get_eq_of_encodes hc m index,
+   GenEq.wmx_value_iter_next_eq m w value rank hv (by rw [hc.width_eq]; exact hc.width_le) hlen,
+   GenEq.wmx_predecessor_eq_of_encodes hc m index value hv, GenEq.wmx_successor_eq_of_encodes hc m index value hv⟩
 
 end Sds.C04
